@@ -587,7 +587,28 @@ func c15R4(c *Ctx, rule string) {
 		}
 		okPath = okPath && strings.Contains(pathD, "["+c.P.D(idx)+"]")
 	}
-	c.Check(rule, "ReapSnapshots:only-beyond-retain", c.P.InstrPos(removes[0].Instr), "removal walks the newest-first listing from position `retain` upwards (never the newest `retain` snapshots) and removes <path>/<that snapshot's ID>", idx != nil && startOK && stepOK && okPath, "index "+pick(idx != nil, c.P.D(idx), "?")+", path "+pathD, 1)
+	idxD := "?"
+	if idx != nil {
+		idxD = c.P.D(idx)
+	}
+	rangeForm := false
+	if jc, ok := engine.ArgValue(removes[0].Instr, 0).(*ssa.Call); ok {
+		elems := sliceLit(c, fn, jc.Common().Args[0])
+		if len(elems) == 2 && elems[0] == "recv.path" && (elems[1] == "val(range recv.getSnapshots()#0).ID" || elems[1] == "val(range recv.getSnapshots()#0).SnapshotMeta.ID") {
+			// for i, s := range snapshots { if i < f.retain { continue }; remove(s.ID) }
+			rr := c.Run(&engine.Automaton{Fn: fn, Tracks: []engine.Track{
+				{Name: "iter", If: func(cd engine.Cond, _ *ssa.If) (bool, int) {
+					return cd.IsRel && cd.X == "idx(range)" && cd.Y == "len(recv.getSnapshots()#0)", engine.True
+				}, Kills: []string{"below"}},
+				engine.PredRel("below", "idx(range)", "recv.retain", engine.LT),
+			}})
+			rangeForm = true
+			c.RequireAt(rr, rule, "ReapSnapshots:only-beyond-retain", removes[0].Instr, "removal walks the newest-first listing and removes <path>/<that snapshot's ID> only for positions >= retain (never the newest `retain` snapshots)", func(v engine.View) bool { return v.F("below") })
+		}
+	}
+	if !rangeForm {
+		c.Check(rule, "ReapSnapshots:only-beyond-retain", c.P.InstrPos(removes[0].Instr), "removal walks the newest-first listing from position `retain` upwards (never the newest `retain` snapshots) and removes <path>/<that snapshot's ID>", idx != nil && startOK && stepOK && okPath, "index "+idxD+", path "+pathD, 1)
+	}
 	r := c.Run(&engine.Automaton{Fn: fn, Tracks: []engine.Track{predErr("listErr", "recv.getSnapshots()#1")}})
 	c.RequireAt(r, rule, "ReapSnapshots:listing-read", removes[0].Instr, "nothing is removed when the listing could not be read", func(v engine.View) bool { return v.F("listErr") })
 	c.WhoMay(rule, "call (*FileSnapshotStore).ReapSnapshots", c.P.CallsEverywhere(engine.Is("(*FileSnapshotStore).ReapSnapshots")), map[string]string{"(*FileSnapshotSink).Close": "after the new snapshot is in place"})
@@ -633,7 +654,9 @@ func c15R5(c *Ctx, rule string) {
 			}
 			return false, 0
 		}),
-		engine.PredBool("crcOK", DescIs("bytes.Equal(recv.readMeta(p1)#0.CRC, "+hash+".Sum(nil))")),
+		engine.PredBool("crcOK", func(d string) bool {
+			return d == "bytes.Equal(recv.readMeta(p1)#0.CRC, "+hash+".Sum(nil))" || d == "bytes.Equal("+hash+".Sum(nil), recv.readMeta(p1)#0.CRC)"
+		}),
 		engine.Event("rewound", func(in ssa.Instruction) bool {
 			cc := engine.CallCommonOf(in)
 			return cc != nil && c.P.CalleeName(cc) == "(*os.File).Seek" && c.P.D(engine.RecvValue(in)) == fh+"#0" && c.P.Arg(in, 0) == "0" && c.P.Arg(in, 1) == "0"
